@@ -209,7 +209,7 @@ IDENTS = ["zz_first", "mm_second", "aa_third"]     # sorted order differs from c
 
 
 def run(seq="iwls_rw_gibbs", model_kind="liesel", chains=2, seed=0, custom_idents=True,
-        schedule=((1, 4), (3, 2), (4, 4)), double_set_model=False):
+        schedule=((1, 4), (3, 2), (4, 4)), double_set_model=False, auto_off=False):
     """double_set_model (Liesel model 1): the first kernel is added, then the builder is given the interface of a model
     with the same node names but another graph (sigma = softplus(...)), then the real interface."""
     spec = SEQS[seq]
@@ -221,6 +221,9 @@ def run(seq="iwls_rw_gibbs", model_kind="liesel", chains=2, seed=0, custom_ident
     npar, nder = sum(SIZES), (sum(DSIZES) if model_kind.startswith("liesel") else 1)
     if model_kind.startswith("liesel"):
         user_model = builders[model_kind]()
+        if auto_off:
+            # the user switched automatic updates off (the documented performance switch) before making the interface
+            user_model.auto_update = False
         interface = gs.LieselInterface(user_model)
         init = user_model.state
 
@@ -300,7 +303,7 @@ def run(seq="iwls_rw_gibbs", model_kind="liesel", chains=2, seed=0, custom_ident
                "mh_like": [k in ("rw", "rwbig", "mh", "iwls") for k, _ in spec],
                "scenario": {"seq": seq, "model_kind": model_kind, "chains": chains, "seed": seed,
                             "custom_idents": custom_idents, "schedule": [list(s) for s in schedule],
-                            "double_set_model": double_set_model}}
+                            "double_set_model": double_set_model, "auto_off": auto_off}}
         traces.append({"hdr": hdr, "ev": ev})
     return traces
 
